@@ -12,21 +12,148 @@ open Yata Yata.Drv
 
 inductive CaseState where
   | idle
+  | skip                                   -- after a mismatch: ignore the rest of the case
   | window (w : Window Nat)
+  | methodNew (name : String) (params : List String)
+  | method (name : String) (st : MState) (ctx : Ctx) (prevLeaves : List String) (lstepOnly : Bool)
 
 structure Drv where
   P : Nat := 255
   cs : CaseState := .idle
   caseId : String := ""
   comp : String := ""
+  sub : String := ""
   lineNo : Nat := 0
   cases : Nat := 0
   ops : Nat := 0
   mism : Nat := 0
   caseBad : Bool := false
   badCases : Nat := 0
+  exempt : Nat := 0
+  lsteps : Nat := 0
 
 def reportLimit : Nat := 20000
+
+def split3 (line : String) : List String × List String × List String :=
+  match line.splitOn ";" with
+  | [a] => (words a, [], [])
+  | [a, b] => (words a, words b, [])
+  | a :: b :: c :: _ => (words a, words b, words c)
+  | [] => ([], [], [])
+
+def fzOf (tok : String) : Option FZ :=
+  match parseF tok with
+  | some (.fin neg q) => some { q := q, negZero := neg && q == 0 }
+  | _ => none
+
+def bump (c : Ctx) (name : String) (inp : List FZ) : Ctx :=
+  let a := inp.map (fun z => ratAbs z.q)
+  let mx := a.foldl ratMax 0
+  match name, a with
+  | "vwma", [p, v] => { c with M := ratMax c.M p, Mv := ratMax c.Mv v }
+  | _, [o, h, l, cl, v] => { c with M := ratMax c.M (ratMax (ratMax o h) (ratMax l cl)), Mv := ratMax c.Mv v }
+  | _, _ => { c with M := ratMax c.M mx, Mv := ratMax c.Mv mx }
+
+def resStr : Res MState → String
+  | .ok _ => "ok"
+  | .err e => s!"err:{e}"
+  | .panic _ => "P"
+
+def mismatch (d : Drv) (what : String) (line : String) (cls : String := "semantic") (next : CaseState := .skip) :
+    Drv × Option String :=
+  let d := { d with mism := d.mism + 1, badCases := if d.caseBad then d.badCases else d.badCases + 1,
+                    caseBad := true, cs := next }
+  (d, some s!"MISMATCH case={d.caseId} comp={d.comp} sub={d.sub} class={cls} line={d.lineNo} op=\"{line.take 160}\" what=\"{what}\"")
+
+/-- tight per-step context for the L-step layer: one step, no window term -/
+def lstepCtx (c : Ctx) : Ctx := { c with t := 1, n := 0 }
+
+/-- L-step: from Rust's own pre-state, one exact model step must reproduce Rust's output and
+    post-state up to one step's rounding.  `none` = holds, `some msg` = broken. -/
+def lstepCheck (ctx : Ctx) (st : MState) (prev : List String) (inp : List FZ)
+    (res leaves : List String) : Option (Option String) :=
+  if prev.isEmpty then none else
+  match mLoad st prev with
+  | none => none
+  | some stL =>
+    let c := lstepCtx ctx
+    match mNext c stL inp with
+    | .error e => some (some s!"L-step: model panics ({e}) from the implementation's own state")
+    | .ok (outs, stL') =>
+      -- widen the numeric tolerance by the size of the value itself (one step of relative rounding)
+      let outs := outs.map fun o => match o with
+        | .num q tol => Out.num q (tol + 1024 * c.eps * ratAbs q)
+        | o => o
+      let (bad, _) := cmpAll (cmpOut c) outs res "L-step output"
+      match bad with
+      | some m => some (some m)
+      | none =>
+        if leaves.isEmpty then some none else
+        let (bad2, _) := cmpAll (cmpLeaf c (c.allow (stateScale c stL'))) (mLeaves stL') leaves "L-step state"
+        some bad2
+
+def stepMethod (d : Drv) (line : String) : Drv × Option String :=
+  let (op, res, leaves) := split3 line
+  match d.cs, op with
+  | .methodNew name params, "N" :: inToks =>
+    match inToks.mapM fzOf with
+    | none => ({ d with cs := .skip }, some s!"NOTE case={d.caseId} non-finite construction input skipped")
+    | some inp =>
+      let r := mNew d.P name params inp
+      let rust := unwords res
+      if resStr r != rust then mismatch d s!"constructor: rust={rust} model={resStr r}" line "constructor"
+      else match r with
+        | .ok st =>
+          let ctx : Ctx := bump { P := d.P, n := st.winLen } name inp
+          let (bad, _) := cmpAll (cmpLeaf ctx (ctx.allow (stateScale ctx st))) (mLeaves st) leaves "state after new"
+          let d := { d with ops := d.ops + 1, cs := .method name st ctx leaves false }
+          (match bad with
+           | some m => mismatch d m line "constructor-state"
+           | none => (d, none))
+        | _ => ({ d with ops := d.ops + 1, cs := .skip }, none)
+  | .method name st ctx prev lonly, "X" :: inToks =>
+    match inToks.mapM fzOf with
+    | none => ({ d with cs := .skip }, some s!"NOTE case={d.caseId} non-finite input skipped")
+    | some inp =>
+      let ctx := bump { ctx with t := ctx.t + 1 } name inp
+      let ls := if res == ["P"] then none else lstepCheck ctx st prev inp res leaves
+      if lonly then
+        -- after a numeric (residue) finding the exact chain is no longer comparable:
+        -- keep only the per-step tie, resynchronised on the implementation's state
+        let st' := (mLoad st leaves).getD st
+        let d := { d with ops := d.ops + 1, lsteps := d.lsteps + (if ls.isSome then 1 else 0),
+                          cs := .method name st' ctx leaves true }
+        match ls with
+        | some (some m) => mismatch d m line "semantic"
+        | _ => (d, none)
+      else
+      match mNext ctx st inp, res with
+      | .error _, ["P"] => ({ d with ops := d.ops + 1, cs := .skip }, none)
+      | .error e, _ => mismatch d s!"model panics ({e}) but rust returned {unwords res}" line "panic"
+      | .ok _, ["P"] => mismatch d "rust panicked, model does not" line "panic"
+      | .ok (outs, st'), _ =>
+        let (bad, ex) := cmpAll (cmpOut ctx) outs res "output"
+        let d := { d with ops := d.ops + 1, exempt := d.exempt + ex,
+                          lsteps := d.lsteps + (if ls.isSome then 1 else 0),
+                          cs := .method name st' ctx leaves false }
+        let bad2 := if leaves.isEmpty then none
+          else (cmpAll (cmpLeaf ctx (ctx.allow (stateScale ctx st'))) (mLeaves st') leaves "state").1
+        match bad, bad2, ls with
+        | none, none, some (some m) => mismatch d m line "lstep"
+        | none, none, _ => (d, none)
+        | some m, _, some none =>
+          -- the step is right, the accumulated value is not: numeric failure.
+          -- `residue-amplification` when every accumulator is still inside its allowance
+          let accOk := leaves.isEmpty ||
+            (cmpAll (cmpLeaf ctx (ctx.allow (stateScale ctx st'))) (mLeavesAcc st') leaves "acc").1.isNone
+          let cls := if accOk then "residue-amplification" else "numeric-drift"
+          let stR := (mLoad st' leaves).getD st'
+          mismatch d m line cls (.method name stR ctx leaves true)
+        | some m, _, some (some m2) => mismatch d (m ++ " || " ++ m2) line "semantic"
+        | some m, _, none => mismatch d m line "unclassified"
+        | none, some m, some none => mismatch d m line "numeric-drift" (.method name ((mLoad st' leaves).getD st') ctx leaves true)
+        | none, some m, _ => mismatch d m line "semantic"
+  | _, _ => (d, none)
 
 def step (d : Drv) (line : String) : Drv × Option String :=
   let d := { d with lineNo := d.lineNo + 1 }
@@ -35,15 +162,19 @@ def step (d : Drv) (line : String) : Drv × Option String :=
   | [] => (d, none)
   | ["P", p] => ({ d with P := p.toNat! }, none)
   | "C" :: id :: comp :: _params =>
-    let cs := match comp with
-      | "window" => CaseState.window Window.empty
-      | _ => CaseState.idle
-    ({ d with cs := cs, caseId := id, comp := comp, cases := d.cases + 1, caseBad := false },
-      if comp == "window" then none else some s!"UNKNOWN-COMPONENT case={id} comp={comp}")
+    let cs := match comp, _params with
+      | "window", _ => CaseState.window Window.empty
+      | "method", name :: ps => CaseState.methodNew name ps
+      | _, _ => CaseState.idle
+    ({ d with cs := cs, caseId := id, comp := comp, sub := _params.headD "", cases := d.cases + 1, caseBad := false },
+      if comp == "window" || comp == "method" then none else some s!"UNKNOWN-COMPONENT case={id} comp={comp}")
   | ["E"] => ({ d with cs := .idle }, none)
   | _ =>
     match d.cs with
     | .idle => (d, none)
+    | .skip => (d, none)
+    | .methodNew _ _ => stepMethod d line
+    | .method _ _ _ _ _ => stepMethod d line
     | .window w =>
       let (w', model) := windowOp d.P w op
       let rust := unwords res
@@ -53,7 +184,7 @@ def step (d : Drv) (line : String) : Drv × Option String :=
         let d := { d with mism := d.mism + 1,
                           badCases := if d.caseBad then d.badCases else d.badCases + 1,
                           caseBad := true }
-        (d, some s!"MISMATCH case={d.caseId} comp={d.comp} line={d.lineNo} op=\"{unwords op}\" rust=\"{rust}\" model=\"{model}\"")
+        (d, some s!"MISMATCH case={d.caseId} comp={d.comp} class=exact line={d.lineNo} op=\"{unwords op}\" rust=\"{rust}\" model=\"{model}\"")
 
 partial def loop (h : IO.FS.Stream) (d : Drv) : IO Drv := do
   let line ← h.getLine
@@ -71,5 +202,5 @@ def main (args : List String) : IO UInt32 := do
       pure (IO.FS.Stream.ofHandle hd)
     | _ => IO.getStdin
   let d ← loop h {}
-  IO.println s!"SUMMARY cases={d.cases} ops={d.ops} mismatches={d.mism} bad_cases={d.badCases}"
+  IO.println s!"SUMMARY cases={d.cases} ops={d.ops} mismatches={d.mism} bad_cases={d.badCases} exempt={d.exempt} lsteps={d.lsteps}"
   return (if d.mism == 0 then 0 else 1)
